@@ -1,13 +1,13 @@
 package main
 
 import (
-	"regexp"
 	"flag"
 	"fmt"
 	"go/ast"
 	"go/token"
 	"go/types"
 	"os"
+	"regexp"
 	"sort"
 	"strings"
 
@@ -26,22 +26,22 @@ type Ctx struct {
 	cf    *ContractFile
 	funcs map[string]*ssa.Function // RelString -> function
 
-	tags       map[string]int
-	tagTypes   map[int]types.Type
-	usedIfaces map[string]*types.Interface
-	globals    map[string]int
+	tags               map[string]int
+	tagTypes           map[int]types.Type
+	usedIfaces         map[string]*types.Interface
+	globals            map[string]int
 	immutableGlobals   map[*ssa.Global]bool
 	uniqueAllocGlobals map[*ssa.Global]bool
-	usedUnique map[string]bool
-	usedUniqueErr map[string]bool
-	contractErrors []string
-	errGlobals map[*ssa.Global]bool
-	mod        *modInfo
-	worldReach map[*ssa.Function]bool // functions that can reach a denied primitive
-	guardExpr  string                 // while verifying an "effects guarded" function: its guard expression
-	constInit  map[*ssa.Global]map[int]*ssa.Const // immutable struct globals: field index -> constant stored by init (-1 = whole scalar)
-	stableArr  map[string]bool                     // heap arrays of fields declared stable (written only by their constructors)
-	allFuncs map[*ssa.Function]bool
+	usedUnique         map[string]bool
+	usedUniqueErr      map[string]bool
+	contractErrors     []string
+	errGlobals         map[*ssa.Global]bool
+	mod                *modInfo
+	worldReach         map[*ssa.Function]bool             // functions that can reach a denied primitive
+	guardExpr          string                             // while verifying an "effects guarded" function: its guard expression
+	constInit          map[*ssa.Global]map[int]*ssa.Const // immutable struct globals: field index -> constant stored by init (-1 = whole scalar)
+	stableArr          map[string]bool                    // heap arrays of fields declared stable (written only by their constructors)
+	allFuncs           map[*ssa.Function]bool
 }
 
 func (c *Ctx) contractError(fc *FuncContract, cl *Clause, err error) {
